@@ -151,3 +151,18 @@ class BadListIterView(Table):
 
     def __iter__(self):
         return [tuple(row) for row in self.source]
+
+
+def bad_truthtest_in_constructor_path(table, field):
+    if not table:                       # Table has no __bool__: __len__ scans every row
+        return GoodLazyCtorView([], field)
+    return GoodLazyCtorView(table, field)
+
+
+def bad_drain_truthtest(source):
+    it = iter(source)
+    hdr = next(it)
+    yield tuple(hdr)
+    if source:                          # full scan through IterContainer.__len__
+        for row in it:
+            yield tuple(row)
